@@ -727,6 +727,9 @@ func (c *cliFront) plan(h *heapRun, o *obj, st Step) (*cliCall, string) {
 		case "CleanNames":
 			argv = append([]string{"rename", "--clean-names", "-m", mapf}, un...)
 		case "TrimNames":
+			if _, shared := a["prev"]; shared {
+				return nil, "names" // the command starts from an empty map
+			}
 			argv = append([]string{"trim", "name", "-n", strconv.Itoa(ai(a, "size")), "-m", mapf}, un...)
 		case "TrimNamesAuto":
 			if ai(a, "curid") != 1 {
